@@ -71,7 +71,14 @@ fn run_kind(p: &Prop, k: &Kind, n: u64, seed: u64, tier: Tier, only: Option<u64>
                         mon.cur_idx = idx;
                         mon.evaluations += 1;
                         mon.count(&format!("cases.{}", k.name));
-                        (p.run_case)(k.name, idx, &mut rng, &mut mon, tier);
+                        // a panic that escapes the monitor's own guarded sections is recorded with its
+                        // location (library file:line or harness file:line) instead of killing the run
+                        let r = std::panic::catch_unwind(std::panic::AssertUnwindSafe(|| (p.run_case)(k.name, idx, &mut rng, &mut mon, tier)));
+                        if r.is_err() {
+                            let msg = report::LAST_PANIC.with(|p| p.borrow_mut().take()).unwrap_or_else(|| "panic".into());
+                            let at = msg.rsplit(" @ ").next().unwrap_or("?").to_string();
+                            mon.violation(&format!("panic-outside-guarded-section:{}", at), "a call panicked where the monitor did not expect a panic", serde_json::json!({"panic": msg}));
+                        }
                     }
                 }
                 total.lock().unwrap().merge(mon);
